@@ -293,7 +293,9 @@ def check_thick(rep, sc, threads, rng, idx, tier):
                     if math.isnan(e):
                         if not (vmask[j, i].all() or math.isnan(g)):
                             d = f"pixel: ({i},{j}) vector entry {c3} operation {op3}: {g!r}, expected missing"
-                    elif not vmask[j, i].all() and abs(g - e) > 1e-11 * max(abs(e), 10.0 * fac):      # sums of projections of small integer vectors: absolute scale ~10
+                    elif vmask[j, i].all():
+                        d = f"mask: pixel ({i},{j}) of the vector layer (operation {op3}) is masked, expected entry {c3} = {e!r}"
+                    elif abs(g - e) > 1e-11 * max(abs(e), 10.0 * fac):      # sums of projections of small integer vectors: absolute scale ~10
                         d = f"pixel: ({i},{j}) vector entry {c3} operation {op3}: {g!r}, expected {e!r}" + (f" (= {op3} over the depth samples x depth step {step})" if fac != 1.0 else "")
     for layer, o in zip(p.layers[1:], (op, op2)):
         if d:
@@ -318,7 +320,7 @@ def check_thick(rep, sc, threads, rng, idx, tier):
         exp = exp / ufac
         amb = (ids == -2).any(axis=0)
         data = layer["data"]
-        # the mask of all layers is the NaN pattern of the last reduced layer; NaN results may also show as NaN
+        # a pixel is masked (or NaN) exactly when this layer's own reduction of the column is NaN
         for j in range(ny):
             for i in range(nx):
                 if amb[j, i]:
@@ -329,7 +331,7 @@ def check_thick(rep, sc, threads, rng, idx, tier):
                 if math.isnan(e):
                     if not (m or math.isnan(g)):
                         d = f"pixel: ({i},{j}) operation {o}: {g!r}, expected missing (column samples {vals[:, j, i].tolist()})"
-                elif m and not math.isnan(float(getattr(np, op2)(vals[:, j, i]))):
+                elif m:
                     d = f"mask: pixel ({i},{j}) operation {o} is masked, expected {e!r} (column samples {vals[:, j, i].tolist()})"
                 elif not m and abs(g - e) > 1e-12 * max(abs(e), 1e-30):
                     d = f"pixel: ({i},{j}) operation {o}: {g!r}, expected {e!r} = {o} of column samples {vals[:, j, i].tolist()}" + (f" x depth step {step}" if o in ("sum", "nansum") else "")
